@@ -543,6 +543,7 @@ func (r *Runner) readBack(n *cluster.Node, docID string, current map[string]any,
 
 type SigCase struct {
 	Tamper   string `json:"tamper"`
+	Pos      string `json:"pos"`
 	Signer   string `json:"signer"`
 	Verifier string `json:"verifier"`
 	Verifies bool   `json:"verifies"`
@@ -610,6 +611,7 @@ func (r *Runner) RunSig(cases []SigCase, keyType crypto.KeyType) {
 		}
 		docID := cluster.Rows(d, "create_T")[0]["_docID"].(string)
 		a.Exec(ctx, fmt.Sprintf(`mutation { update_T(docID: %q, input: {a: "y", b: 2}) { _docID } }`, docID))
+		a.Exec(ctx, fmt.Sprintf(`mutation { update_T(docID: %q, input: {a: "z", b: 3}) { _docID } }`, docID))
 		// a second document only to have a foreign signature block for "sig-swapped"
 		a.Exec(ctx, `mutation { create_T(input: {k: 2, a: "other"}) { _docID } }`)
 		hd, _ := a.Exec(ctx, fmt.Sprintf(`query { latestCommits(docID: %q) { cid } }`, docID))
@@ -621,7 +623,7 @@ func (r *Runner) RunSig(cases []SigCase, keyType crypto.KeyType) {
 			continue
 		}
 		// (a) verification API on the untampered commit
-		if c.Tamper == "none" {
+		if c.Tamper == "none" && c.Pos != "parent" {
 			r.Res.Verifs++
 			err := a.DB.VerifySignature(ctx, hc.String(), keys[c.Verifier].PublicKey())
 			if (err == nil) != c.Verifies {
@@ -644,11 +646,47 @@ func (r *Runner) RunSig(cases []SigCase, keyType crypto.KeyType) {
 		}
 		// (b) offer the (tampered) head to a receiver through the DAG sync of the network layer
 		if c.Signer == c.Verifier {
-			forged, err := tamper(ctx, a, blk, c.Tamper, docID)
+			target := blk
+			if c.Pos == "parent" {
+				if len(blk.Heads) != 1 {
+					r.Res.Errors = append(r.Res.Errors, "head without a single parent")
+					a.Close()
+					continue
+				}
+				pb, _, perr := a.GetBlock(ctx, blk.Heads[0].Cid)
+				if perr != nil || pb.Signature == nil || len(pb.Heads) == 0 {
+					r.Res.Errors = append(r.Res.Errors, fmt.Sprint("parent commit not usable: ", perr))
+					a.Close()
+					continue
+				}
+				target = pb
+			}
+			forged, err := tamper(ctx, a, target, c.Tamper, docID)
 			if err != nil {
 				r.Res.Errors = append(r.Res.Errors, "tamper "+c.Tamper+": "+err.Error())
 				a.Close()
 				continue
+			}
+			if c.Pos == "parent" {
+				// the forged commit is stored where the receiver fetches from; what is pushed is an unsigned head on top of it
+				raw, merr := forged.Marshal()
+				if merr != nil {
+					r.Res.Errors = append(r.Res.Errors, merr.Error())
+					a.Close()
+					continue
+				}
+				fc, perr := putRaw(ctx, a, raw)
+				if perr != nil {
+					r.Res.Errors = append(r.Res.Errors, perr.Error())
+					a.Close()
+					continue
+				}
+				child := blk.Clone()
+				child.Links = append([]coreblock.DAGLink{}, blk.Links...)
+				child.Heads = []cidlink.Link{{Cid: fc}}
+				child.Signature = nil
+				child.Delta.DocCompositeDelta.Priority = forged.Delta.DocCompositeDelta.Priority + 1
+				forged = child
 			}
 			rc, _ := cluster.NewNode(ctx, "receiver", cluster.Options{})
 			rc.DB.AddSchema(ctx, sdl)
@@ -666,7 +704,7 @@ func (r *Runner) RunSig(cases []SigCase, keyType crypto.KeyType) {
 			after := dump(ctx, rc)
 			if accepted != c.Accepted {
 				if accepted {
-					r.violate("C12", "forged-accepted:"+c.Tamper, c, "a commit with tampering '%s' (%s key) was accepted and merged by the receiver", c.Tamper, keyType)
+					r.violate("C12", "forged-accepted:"+c.Tamper+":"+c.Pos, c, "a commit with tampering '%s' (%s key; the tampered block is the %s of what was pushed) was accepted and merged by the receiver", c.Tamper, keyType, c.Pos)
 				} else {
 					r.violate("C12", "genuine-rejected:"+c.Tamper, c, "the receiver rejected a commit that should be accepted (tamper '%s'): %v", c.Tamper, serr)
 				}
@@ -709,6 +747,10 @@ func tamper(ctx context.Context, a *cluster.Node, orig *coreblock.Block, kind, d
 		if len(b.Links) > 0 {
 			b.Links = b.Links[:len(b.Links)-1]
 		}
+	case "enc-attached":
+		// an encryption link the author never put there (it points at an existing block)
+		l := cidlink.Link{Cid: orig.Signature.Cid}
+		b.Encryption = &l
 	case "sig-removed":
 		b.Signature = nil
 	case "sig-value", "sig-identity", "sig-type", "sig-swapped":
